@@ -409,3 +409,22 @@ func init() {
 		ruleParseTable(c, "C14-R6")
 	})
 }
+
+func init() {
+	register("C15", propMeta{
+		Explanation: staticNote + "Decides the structural conditions of round-tripping, chronologically sorting names: (R1) the time layout tokenises to fixed-width zero-padded numeric fields, most significant first, down to nanoseconds; dotIndex is its '.'; NameTimestamp is ts.UTC().Format(layout) with '.'→'-'; (R2) BuildName writes database, instance, timestamp, generation, extras joined by \"__\", then '.' and the extension; ParseName cuts the extension at the first '.', requires a registered extension, splits on the same \"__\" into the same four fields in the same order, checks length and '-' and parses with the same layout; (R3) instanceID() returns reUnsafe.ReplaceAllString(n, \"-\") on every path and reUnsafe (parsed with regexp/syntax) replaces '_', '.', and everything outside [a-zA-Z0-9-]; (R4) receiver and cleaner list name+\"__\" and consider only successfully parsed names of kind snapshot.",
+		NotDecided:  "time.Format/Parse behaviour over 1970–2262; injectivity beyond field order; database names containing the separator (documented alphabet).",
+		Assumptions: []string{"database and sanitised instance names contain neither \"__\" nor '.' (documented safe alphabet)"},
+	}, func(c *Check) {
+		c.Rule("C15-R1", "LAYOUT")
+		c.Rule("C15-R2", "SEPARATORS / ORDER / PARSER")
+		c.Rule("C15-R3", "SANITISER")
+		c.Rule("C15-R4", "KIND-FILTER and prefixes")
+		ruleNameLayout(c, "C15-R1")
+		ruleBuildParse(c, "C15-R2")
+		ruleSanitiser(c, "C15-R3")
+		ruleReceiverListing(c, "C15-R4", "C15-R4")
+		ruleCleanerDeletes(c, "C15-R4", "C15-R4", "C15-R4", "C15-R4", "C15-R4", "C15-R4")
+		ruleSendNaming(c, "C15-R2")
+	})
+}
